@@ -143,6 +143,43 @@ Section Migrate.
     rewrite heads_fold_spec. cbn. reflexivity.
   Qed.
 
+  (** ... and the key stored with the head is the key of one of that author's records carrying
+      exactly that timestamp (which one, when several of the author's records share the greatest
+      timestamp, depends on the key order here and on the order of arrival in a store that kept its
+      heads up to date) *)
+  Definition names (recs : list (rid * rval)) (row : (N * N) * (N * bytes)) : Prop :=
+    let '((ns, au), (t, k)) := row in exists l h, In ((ns, au, k), (t, l, h)) recs.
+
+  Lemma heads_fold_names recs : forall acc R0,
+    (forall row, In row acc -> names R0 row) ->
+    forall row, In row (heads_fold recs acc) -> names (R0 ++ recs) row.
+  Proof.
+    induction recs as [|[[[n a] k] [[ts l] h]] recs IH]; intros acc R0 H row I; cbn [heads_fold fold_left] in I.
+    - rewrite app_nil_r. auto.
+    - fold (heads_fold recs (head_step acc ((n, a, k), (ts, l, h)))) in I.
+      change (R0 ++ ((n, a, k), (ts, l, h)) :: recs) with (R0 ++ [((n, a, k), (ts, l, h))] ++ recs).
+      rewrite app_assoc. eapply IH; [|exact I].
+      intros row' I'. 
+      assert (OLD : forall r0, In r0 acc -> names (R0 ++ [((n, a, k), (ts, l, h))]) r0).
+      { intros [[n0 a0] [t0 k0]] I0. destruct (H _ I0) as (l0 & h0 & J). exists l0, h0. apply in_or_app. now left. }
+      assert (NEW : names (R0 ++ [((n, a, k), (ts, l, h))]) ((n, a), (ts, k))).
+      { exists l, h. apply in_or_app. right. now left. }
+      unfold head_step in I'. destruct (tbl_get pair_cmp (n, a) acc) as [[t0 k0]|].
+      + destruct (t0 <=? ts); [|now apply OLD].
+        apply tbl_insert_In_inv in I'. destruct I' as [->|I']; auto.
+      + apply tbl_insert_In_inv in I'. destruct I' as [->|I']; auto.
+  Qed.
+
+  Theorem migrate_heads_key T : t_latest T = [] ->
+    forall ns au t k, tbl_get pair_cmp (ns, au) (t_latest (migrate_latest T)) = Some (t, k) ->
+      exists l h, In ((ns, au, k), (t, l, h)) (t_records T).
+  Proof.
+    intros E ns au t k G. apply (tbl_get_In pair_cmp pair_cmp_eq) in G. unfold migrate_latest in G. rewrite E in G.
+    destruct (t_records T) as [|r recs] eqn:R; [rewrite E in G; destruct G|].
+    cbn [t_latest set_latest] in G. change (fold_left _ (r :: recs) []) with (heads_fold (r :: recs) []) in G.
+    exact (heads_fold_names (r :: recs) [] [] (fun _ F => match F with end) ((ns, au), (t, k)) G).
+  Qed.
+
   (** ---- reopening ---- *)
   Theorem open_uptodate_noop T : t_latest T <> [] -> t_bykey T <> [] -> open_store T = T.
   Proof.
